@@ -311,6 +311,9 @@ fn host_settings(h: &Hosts, fault: u8, dir: &str) -> Result<trusttunnel::setting
 }
 
 async fn run(plan: DPlan) -> Obs {
+    // on TLS connections only semantic events are traced (the ciphertext depends on entropy the
+    // simulation does not own): the plan's digest stands in for the bytes that were sent
+    world::note(900, crate::prng::fnv64(serde_json::to_string(&plan).unwrap_or_default().as_bytes()), 0);
     let mut obs = Obs::default();
     let cfg = EpConfig {
         listen: LISTEN.parse().unwrap(),
